@@ -20,7 +20,8 @@ def run(ctx):
                 "repeats to non-empty sequences) expanded over a context of strings with markup, numbers, empty/non-empty lists, maps, None. "
                 "non-trivial = templates with >= 2 TAL commands on one element or a repeat nested in a repeat, distinct by template text")
     res.assumptions = ["html.parser tokenisation is outside the model: templates enter as event trees in normal form; the generator's static text avoids & and <",
-                       "XML templates, METAL macro expansion and python: expression values are not modelled (python: is an oracle constant)",
+                       "XML templates and python: expression values are not modelled (python: is an oracle constant); METAL is modelled as tree substitution for macro expressions that name a macro statically, "
+                       "with no TAL command on use-macro and define-slot elements (TAL commands run before METAL ones on one element)",
                        "repeat over dictionaries and iterators, path steps that hit Python attributes of str/list/dict are outside the value domain"]
     rnd = ctx.rng
     n = ctx.n(700, 12000)
@@ -65,6 +66,54 @@ def run(ctx):
         cases.append(("compile", tpl, prog))
         lines.append("\t".join(["talexpand", "T" if allow else "F", talgen.enc_val(g), enc]))
         cases.append(("expand", tpl, (rout, rsnap)))
+    # ---- METAL: a macro library and a page using it (slot fillers, nested uses, the page's own macros) ------------------
+    import metalgen
+    mlines, mcases = [], []
+    for i in range(ctx.n(150, 2500)):
+        lib, page = metalgen.gen_case(rnd)
+        ls = "".join(metalgen.ser(x) for x in lib)
+        ps = "".join(metalgen.ser(x) for x in page)
+        g = talgen.ctxvals()
+        try:
+            rout, rctx = metalgen.real_expand(ls, ps, g)
+        except KeyError:
+            res.count("out-of-domain:repeat-over-mapping")
+            continue
+        except Exception as e:  # noqa
+            res.violation("C17:real-raises:" + type(e).__name__, "compiling or expanding a well-formed template with macros raised", {"library": ls, "page": ps},
+                          observed=repr(e), required="an expansion", replay={"metal": True, "library": ls, "page": ps})
+            continue
+        res.evaluations += 1
+        uses = ps.count("metal:use-macro")
+        fills = ps.count("metal:fill-slot")
+        res.count("metal:uses", uses)
+        res.count("metal:fills", fills)
+        if uses and fills:
+            res.nontrivial.add(ps)
+        try:
+            oout, _plain = metalgen.oracle_expand(lib, page, g)
+        except Exception as e:  # noqa
+            oout = "ORACLE-EXC " + repr(e)
+        if oout != rout:
+            res.violation("C17:metal-semantics", "macro expansion differs from METAL semantics (use-macro = the macro's element with the use site's fillers in its slots)",
+                          {"library": ls, "page": ps}, observed=rout[:500], required=oout[:500], replay={"metal": True, "library": ls, "page": ps})
+        if rctx.locals or rctx.localStack or rctx.repeatStack:
+            res.violation("C17:context-leftover", "the context is not restored after a macro expansion", {"library": ls, "page": ps},
+                          observed={"locals": dict(rctx.locals), "stack": len(rctx.localStack)}, required="empty", replay={"metal": True, "library": ls, "page": ps})
+        nl, npg = metalgen.nf(lib), metalgen.nf(page)
+        table = metalgen.macro_table("mac/", nl) + metalgen.macro_table("own/", npg)
+        mlines.append("\t".join(["talmetal", "F", talgen.enc_val(g), metalgen.enc_macros(table), metalgen.enc_mnodes(npg)]))
+        mcases.append((ls, ps, rout))
+    mouts = ctx.driver.run(mlines)
+    for (ls, ps, rout), o in zip(mcases, mouts):
+        res.evaluations += 1
+        f = o.split("\t")
+        mout = f[0] if f[0] == "MACHINE-STUCK" else dec_str(f[0])
+        dout = dec_str(f[1]) if len(f) > 1 else None
+        if mout != rout:
+            res.disagree("C17.metal-machine", {"library": ls, "page": ps}, str(mout)[:400], rout[:400])
+        if dout != rout:
+            res.disagree("C17.metal-denote", {"library": ls, "page": ps}, str(dout)[:400], rout[:400])
     outs = ctx.driver.run(lines)
     for (kind, tpl, impl), o in zip(cases, outs):
         res.evaluations += 1
@@ -124,6 +173,12 @@ def _nested_repeat(ast, inside=False):
 
 def replay(data):
     rp = data["violation"]["replay"]
+    if rp.get("metal"):
+        import metalgen
+        print("library:", rp["library"])
+        print("page:", rp["page"])
+        print("expansion:", metalgen.real_expand(rp["library"], rp["page"], talgen.ctxvals())[0])
+        return 0
     t, prog = talgen.real_compile(rp["template"])
     print("template:", rp["template"])
     print("program:", prog)
